@@ -21,4 +21,5 @@ TRUSTED = ['BaseObject.__eq__/SmartList.__eq__ (assumed contract)', 'uuid.uuid4/
 
 
 def bounded_jobs(tier, seed):
-    return [bj('rcc.b_hist', 'run_histories', tier, seed)]
+    return [bj('rcc.b_hist', 'run_histories', tier, seed),
+            bj('rcc.b_hist', 'run_bulk_refusals', tier, seed)]
